@@ -247,6 +247,10 @@ func varintLoopDefect(p *Prog, st *ssa.Store, ia *ssa.IndexAddr, x ssa.Value) st
 	} else if ph, ok := bx.(*ssa.Phi); ok {
 		iphi, base = ph, by
 	} else {
+		// `for i := range buf[base : base+size-1]`: go/ssa counts k = φ+1 from φ = -1 while k < len(slice)
+		if d := rangeFormDefect(p, st, ia, tphi, bx, by); d != "no" {
+			return d
+		}
 		return "the continuation byte is not stored at base+i"
 	}
 	init0, step1 := false, false
@@ -555,4 +559,115 @@ func varintSizeArg(p *Prog, v ssa.Value) (ssa.Value, bool) {
 func varintSizeOf(p *Prog, sz, l ssa.Value) bool {
 	a, ok := varintSizeArg(p, sz)
 	return ok && a == l
+}
+
+// rangeFormDefect checks the range-over-subslice form of the varint loop. It returns "" when the
+// loop is correct, a description when it is this form but wrong, and "no" when it is not this form.
+func rangeFormDefect(p *Prog, st *ssa.Store, ia *ssa.IndexAddr, tphi *ssa.Phi, bx, by ssa.Value) string {
+	strip := func(v ssa.Value) ssa.Value {
+		if c, ok := v.(*ssa.Convert); ok {
+			return c.X
+		}
+		return v
+	}
+	var k *ssa.BinOp
+	var base ssa.Value
+	if b, ok := strip(by).(*ssa.BinOp); ok && b.Op == token.ADD {
+		k, base = b, bx
+	} else if b, ok := strip(bx).(*ssa.BinOp); ok && b.Op == token.ADD {
+		k, base = b, by
+	} else {
+		return "no"
+	}
+	phi, ok := k.X.(*ssa.Phi)
+	if one, isK := constInt(k.Y); !ok || !isK || one != 1 {
+		return "no"
+	}
+	from := false
+	for _, e := range phi.Edges {
+		if c, isK := constInt(e); isK {
+			if c != -1 {
+				return fmt.Sprintf("the range index starts at %d", c+1)
+			}
+			from = true
+		}
+	}
+	if !from {
+		return "no"
+	}
+	blk := k.Block()
+	iff, ok := blk.Instrs[len(blk.Instrs)-1].(*ssa.If)
+	if !ok {
+		return "no"
+	}
+	lt, ok := iff.Cond.(*ssa.BinOp)
+	if !ok || lt.Op != token.LSS || lt.X != ssa.Value(k) {
+		return "no"
+	}
+	ln, ok := lt.Y.(*ssa.Call)
+	if !ok || calleeName(ln) != "builtin len" {
+		return "no"
+	}
+	sl, ok := ln.Call.Args[0].(*ssa.Slice)
+	if !ok || sl.X != ia.X || sl.Low == nil || sl.High == nil {
+		return "the loop does not range over buf[base : base+size-1]"
+	}
+	if !(sl.Low == base || sameConstOrExpr(p, sl.Low, base)) {
+		return "the ranged sub-slice does not start at the base the bytes are written from"
+	}
+	hs, ok := sl.High.(*ssa.BinOp)
+	if !ok || hs.Op != token.SUB {
+		return "the ranged sub-slice does not end one byte before the end (base+size-1)"
+	}
+	if one, isK := constInt(hs.Y); !isK || one != 1 {
+		return "the ranged sub-slice does not end one byte before the end (base+size-1)"
+	}
+	ax, ay, ok := addOperands(hs.X)
+	if !ok {
+		return "the ranged sub-slice does not end at base+size-1"
+	}
+	var size ssa.Value
+	switch {
+	case ax == base || sameConstOrExpr(p, ax, base):
+		size = ay
+	case ay == base || sameConstOrExpr(p, ay, base):
+		size = ax
+	default:
+		return "the ranged sub-slice does not end at base+size-1"
+	}
+	if st.Block() != blk.Succs[0] {
+		return "the continuation byte is not written in the loop body"
+	}
+	final := false
+	for _, in := range blk.Succs[1].Instrs {
+		s2, ok := in.(*ssa.Store)
+		if !ok {
+			continue
+		}
+		ia2, ok := s2.Addr.(*ssa.IndexAddr)
+		if !ok || ia2.X != ia.X {
+			continue
+		}
+		cv2, ok := s2.Val.(*ssa.Convert)
+		if !ok || cv2.X != ssa.Value(tphi) {
+			continue
+		}
+		sb, ok := ia2.Index.(*ssa.BinOp)
+		if !ok || sb.Op != token.SUB {
+			continue
+		}
+		if one, isK := constInt(sb.Y); !isK || one != 1 {
+			return "the final byte is not stored at base+size-1"
+		}
+		fx, fy, ok := addOperands(sb.X)
+		if ok && ((fy == size && (fx == base || sameConstOrExpr(p, fx, base))) || (fx == size && (fy == base || sameConstOrExpr(p, fy, base)))) {
+			final = true
+		} else {
+			return "the final byte is not stored at base+size-1 of the same size and base"
+		}
+	}
+	if !final {
+		return "the final byte byte(t) is not stored at base+size-1 after the loop"
+	}
+	return ""
 }
